@@ -354,7 +354,7 @@ def case_post_init(ses, case):
         extra["it"] = it
         return arr
 
-    ok = explore_checked(ses, f"{P}/post_init/{tc}", run, hyps, function=fn, timeout_ms=1500)
+    ok = explore_checked(ses, f"{P}/post_init/{tc}", run, hyps, function=fn, timeout_ms=1500, limit_group="post_init")
     for pi, r in enumerate(ok):
         arr, it, path = r.value, r.extra["it"], r.path
         base = path_hyps(path)
@@ -390,3 +390,16 @@ def case_post_init(ses, case):
         wit = [(info["witness"], info["is_min"]) for info in getattr(path, "minmax", {}).values()]
         ses.decided(f"{pid}/span-bounds-are-attained(min,max-witnesses)", {m for _, m in wit} == {True, False},
                     function=fn, detail={"witnesses": len(wit)})
+
+
+def resolve_limits(ses):
+    """bounded stand-ins for the array-chain obligations the verifier could not generate (engine limits)"""
+    from native import arraycheck as ac
+
+    budget = 20000 if ses.tier == "quick" else 100000
+    for group in ("getitem", "load"):
+        ses.resolve_engine_limits(group, lambda: _native_getitem(budget),
+                                  bound_text="images up to 5x3, records_per_chunk 1..n+1, every int / slice key with |bounds| <= n+1, steps 1..3: "
+                                             "values vs NumPy and the open/seek/read events vs the chunk spans, on fresh and on reused Array objects")
+    ses.resolve_engine_limits("post_init", lambda: ac.check_post_init(seed=ses.seed),
+                              bound_text="random byte ranges for 1..12 rows, records_per_chunk None / 1..n+2: class invariant of Array")
